@@ -112,7 +112,7 @@ pub fn aclone_line(bytes: &[u8]) -> Option<String> {
         if e > bytes.len() { continue; }
         let p = &bytes[a..e];
         if !seen.insert(p.to_vec()) { continue; }
-        let dec = brotli_decompress_limited(p, x.source_size as usize);
+        let dec = match d.comp { Some([t, _]) if t != 0 => crate::archive::codec_decompress(t, p, x.source_size as usize), _ => None };
         tab.push(format!("{}={}={}={}", hex(p), hex(&b2(p)), match &dec { Some(v) => hex(v), None => "!".into() }, match &dec { Some(v) => hex(&b2(v)), None => "-".into() }));
     }
     Some(format!("aclone {} {} {}", hex(bytes), hex(&b2(&bytes[..14 + ds + 8])), if tab.is_empty() { "-".into() } else { tab.join(";") }))
@@ -137,7 +137,8 @@ pub fn conforming_archive(rng: &mut Rng, src: &[u8]) -> (Vec<u8>, Dict) {
         p += l;
     }
     let hl = rng.range(4, 64) as usize;
-    let level = rng.range(1, 9) as u32;
+    let ctype = *rng.pick(&[3u32, 3, 2, 1]);
+    let level = rng.range(1, 6) as u32;
     let mut uniq: Vec<Vec<u8>> = vec![];
     let mut order: Vec<u32> = vec![];
     for c in &chunks {
@@ -149,7 +150,7 @@ pub fn conforming_archive(rng: &mut Rng, src: &[u8]) -> (Vec<u8>, Dict) {
     // stored form per chunk
     let mut any_comp = false;
     let stored: Vec<Vec<u8>> = uniq.iter().map(|u| {
-        if rng.chance(1, 2) { let c = brotli(level, u); if c.len() != u.len() { any_comp = true; c } else { u.clone() } } else { u.clone() }
+        if rng.chance(1, 2) { let c = crate::archive::codec_compress(ctype, level, u); if c.len() != u.len() { any_comp = true; c } else { u.clone() } } else { u.clone() }
     }).collect();
     // placement: permuted, with gaps
     let mut perm: Vec<usize> = (0..uniq.len()).collect();
@@ -175,7 +176,7 @@ pub fn conforming_archive(rng: &mut Rng, src: &[u8]) -> (Vec<u8>, Dict) {
         checksum: b2(src),
         total: src.len() as u64,
         params: Some(params),
-        comp: Some(if any_comp || rng.chance(1, 3) { [3, level] } else { [0, 0] }),
+        comp: Some(if any_comp || rng.chance(1, 3) { [ctype, level] } else { [0, 0] }),
         order,
         descs: uniq.iter().enumerate().map(|(i, u)| Desc { checksum: b2(u)[..hl].to_vec(), archive_size: stored[i].len() as u32, archive_offset: offs[i], source_size: u.len() as u32 }).collect(),
         meta,
@@ -242,7 +243,7 @@ pub fn suite_corrupt(dir: &str, seed: u64, thorough: bool, st: &mut Stats) {
     for ai in 0..narch {
         let cfg = crate::chunking::gen_cfg(&mut rng, true);
         let (src, _) = { let l = rng.range(50, if ai == 0 { 250 } else { 3000 }) as usize; gen_data(&mut rng, l) };
-        let c = CompressCase { cfg, hashlen: rng.range(8, 64) as usize, comp: if rng.chance(1, 2) { None } else { Some(rng.range(1, 9) as u32) }, meta: Default::default(), src: src.clone() };
+        let c = CompressCase { cfg, hashlen: rng.range(8, 64) as usize, comp: crate::archive::gen_comp(&mut rng), meta: Default::default(), src: src.clone() };
         let bytes = match run_create_archive(&c, 2, vec![]) { Ok(b) => b, Err(_) => continue };
         let hlen = 14 + u64::from_le_bytes(bytes[6..14].try_into().unwrap()) as usize + 72;
         let seeds: Vec<Vec<u8>> = if rng.chance(1, 2) { vec![src[..src.len() / 2].to_vec()] } else { vec![] };
